@@ -420,7 +420,7 @@ int main(int argc, char **argv)
     vp::bound("options", "linelength {10,20,40,80,120} x precision {0,2,9} x compress {0,1}, lossless=true, sep=' ' (30 sets); whole messages behind /a and /a/b0 with " + std::string(T ? "4" : "2") + " rotating option sets per list");
     vp::bound("value_alphabet_V", (long long)V.size());
     vp::bound("lists_plain", "all lists of length 0..2 over V; all of length 3 over " + std::string(T ? "V; all of length 4 over a 22-value sub-alphabet" : "a 22-value sub-alphabet") + "; lists of length 4..12 per type and mixed (cyclic, no accidental runs)");
-    vp::bound("runs", "prefix in sub-alphabet+none x run{i h c f d: delta 0,1,-1,3; T F: constant, alternating; s S constant" + std::string(T ? "; r N constant; starts 0, -2, type maximum-7" : "") + "} x length 3..8 x suffix in sub-alphabet+none" + (T ? "; prefix x suffix additionally over all of V x V" : "") + "; constant runs of 4..7 equal arrays; two runs in a row; two adjacent runs sharing their boundary value (all delta pairs, at list start / behind a value); runs whose first step wraps around the integer range; 5..8 values stepping by one across INT_MAX/INT_MIN (32 and 64 bit)");
+    vp::bound("runs", "prefix in sub-alphabet+none x run{i h c f d: delta 0,1,-1,3; T F: constant, alternating; s S constant" + std::string(T ? "; r N constant; starts 0, -2, type maximum-7" : "") + "} x length 3..8 x suffix in sub-alphabet+none" + (T ? "; prefix x suffix additionally over all of V x V" : "") + "; constant runs of 4..7 equal arrays; two runs in a row; two adjacent runs sharing their boundary value (all delta pairs, at list start / behind a value); runs whose first step wraps around the integer range; 5..8 values stepping by one across INT_MAX/INT_MIN (32 and 64 bit); 64-bit runs with steps 2^32+-1, +-2^32, +-2^31, 2^33+1, 5e9, 2^40, 2^53+1; 32-bit runs crossing zero with a span above 2^31 (one of 100 values); an array followed by a counting run of its element type");
     vp::bound("arrays", "every homogeneous array of length 0..4 over 3 values per element type (14 element types), alone and between scalars; arrays of 1..2 (thorough 3) arrays over 6 inner arrays; arrays holding a run of length 3..8 with an optional extra element");
     vp::bound("strings", "every string of length 0..3 over {a \" \\ \\n ' ' % 1} + identifiers + reserved words + one 130-char string, as s and S, alone and between neighbours");
     vp::bound("chars", T ? "every printable ASCII char and C escape, alone and every ordered pair" : "6 chars in V; every printable ASCII char and C escape alone");
@@ -513,6 +513,25 @@ int main(int argc, char **argv)
             do_list("run", idx++, L, FEW);
         }
     }
+    // runs with large steps: 64-bit steps that are +-1 or 0 modulo 2^32 or do not fit 32 bits at all, 32-bit runs that cross zero and
+    // span more than 2^31 (k*step does not fit although every member does); alone, behind a string, behind a different value of the type
+    {
+        const int64_t P32 = (int64_t)1 << 32;
+        for(int64_t d : {P32 + 1, P32 - 1, -(P32 + 1), -(P32 - 1), P32, -P32, (int64_t)1 << 31, -((int64_t)1 << 31), 2 * P32 + 1, (int64_t)5000000000LL, (int64_t)1 << 40, ((int64_t)1 << 53) + 1})
+            for(int64_t start : {(int64_t)0, (int64_t)-3}) for(int len = 5; len <= 7; ++len) for(int ctx = 0; ctx < 3; ++ctx) {
+                List L; if(ctx == 1) L.push_back(pf::Str("x")); if(ctx == 2) L.push_back(pf::H(start + 17));
+                for(int i = 0; i < len; ++i) L.push_back(pf::H(start + (int64_t)i * d));
+                do_list("run", idx++, L, FEW);
+            }
+        struct IR { int32_t start; int32_t step; int len; };
+        for(IR r : {IR{-2000000000, 800000000, 5}, IR{-2000000000, 800000000, 6}, IR{2000000000, -800000000, 6}, IR{-2000000000, 40000000, 100}, IR{INT_MIN, 1 << 29, 8}, IR{INT_MAX, -(1 << 29), 8},
+                    IR{INT_MIN + 1, 1 << 30, 5}, IR{-(1 << 30), 1 << 28, 8}, IR{-16777217, 8388609, 5}})
+            for(int ctx = 0; ctx < 3; ++ctx) {
+                List L; if(ctx == 1) L.push_back(pf::Str("x")); if(ctx == 2) L.push_back(pf::I(r.start + 17));
+                for(int i = 0; i < r.len; ++i) L.push_back(pf::I((int32_t)((int64_t)r.start + (int64_t)i * r.step)));
+                do_list("run", idx++, L, FEW);
+            }
+    }
     if(!g_stop) g_fam_done += "run ";
     // ---- family "arr": homogeneous arrays
     idx = 0;
@@ -574,6 +593,19 @@ int main(int argc, char **argv)
             List L; if(ctx & 1) L.push_back(pf::I(42));
             for(int i = 0; i < k; ++i) L.push_back(a);
             if(ctx & 2) { L.push_back(pf::I(7)); L.push_back(pf::I(8)); }
+            do_list("arr", idx++, L, FEW);
+        }
+    }
+    // an array directly followed by a counting run of the array's element type (the value printed before a range decides whether
+    // the range's second value can be left out): every delta, run starting at / next to / away from the array's last element
+    {
+        auto mkv = [](char k, long v) { return k == 'i' ? pf::I((int32_t)v) : k == 'h' ? pf::H(v) : k == 'c' ? pf::C((char)v) : k == 'f' ? pf::Fl((float)v) : pf::D((double)v); };
+        for(char k : {'i', 'h', 'c', 'f', 'd'}) for(long d : {1L, -1L, 0L, 3L}) for(long first : {72L, 73L, 71L, 90L}) for(int len : {5, 6}) for(int alen : {1, 3}) for(int ctx = 0; ctx < 3; ++ctx) {
+            List el; for(int i = 0; i < alen; ++i) el.push_back(mkv(k, 72 - (alen - 1) + i));          // ... 71 72
+            List L; if(ctx == 1) L.push_back(pf::Str("x"));
+            L.push_back(pf::Arr(el));
+            if(ctx == 2) L.push_back(pf::Arr({}));
+            for(int i = 0; i < len; ++i) L.push_back(mkv(k, first + i * d));
             do_list("arr", idx++, L, FEW);
         }
     }
